@@ -7,6 +7,35 @@ HERE = os.path.dirname(os.path.abspath(__file__))
 
 CLAIMED = {
     # id: (technique, level text, level note, design ref)
+    "C01": ("dispatch-table exhaustiveness over the class hierarchy; def-use rules on the SQL generator (pruning source, group keys, merge guard, cache key); catalogue resolution through the modelled expr_to_sql lookup with template folding and a three-valued SQL evaluator; paired-field rewrite rule (ast)",
+            "Necessary structural conditions of SQLite/Pandas agreement: exhaustive node dispatch in all three back ends; SQL "
+            "pruning from the node's own used-columns report; aggregations keep group keys and stay aggregating; extend-merge "
+            "guard/dependencies/cache key complete; every catalogue row marked y for SQLite resolves to a formatter, operator or "
+            "existing/registered function of the right meaning with correct null truth tables; SQLite join rewrites keep keys paired.",
+            "Trusted: SQLite built-in list, meaning vocabulary, registration meanings (sa/facts.py); the expr_to_sql lookup model is "
+            "checked against the code's shape. Not decided: that the emitted SQL means the pipeline on data.",
+            "DESIGN.md 6/C01"),
+    "C02": ("the C05/C04/C16/C10/C09 rule engines evaluated under the PostgreSQL configuration (formatters, replacements, constructor constants read from PostgreSQL.py); frozen PostgreSQL vocabulary (ast)",
+            "Every catalogue row marked y for PostgreSQL resolves to PostgreSQL vocabulary with the admissible spelling (LN, "
+            "STDDEV_SAMP, VAR_SAMP, BIGINT ...), null truth tables hold, join keywords are PostgreSQL syntax; the CTE-elimination "
+            "and WITH re-wrap paths (live for PostgreSQL) are coherent; native RIGHT/FULL joins use the checked shared generator.",
+            "Trusted: PostgreSQL 16 function/type/join vocabulary (sa/facts.py). No server is run. Not decided: value-level equality.",
+            "DESIGN.md 6/C02"),
+    "C05": ("catalogue-to-implementation resolution per back end (dict-literal tables, modelled lookup order), string-template folding + three-valued SQL evaluation of null truth tables, contract-vs-primitive table (ast)",
+            "All 124 catalogue rows x {Pandas, SQLite, PostgreSQL} marked y resolve to an implementation of the right meaning; "
+            "the SQL templates of maximum/minimum/fmax/fmin/if_else/where/coalesce/is_null equal their documented null contracts "
+            "on {NULL, lo, hi}^n in every SQL dialect checked; the Pandas/Polars bindings match the null behaviour of the numpy/"
+            "polars primitive they use.",
+            "Trusted: dialect vocabularies, numpy/polars null semantics, pandas/numpy name lists (sa/facts.py). "
+            "Not decided: numerical meaning of the other methods, NaN/inf corners.",
+            "DESIGN.md 6/C05"),
+    "C16": ("join-type vocabulary tables per back end; paired-field rewrite rule; coalesce-direction and ON-pairing by template/AST shape with polarity from `left_is_first`; third-party null-key contracts (ast)",
+            "Each accepted join type maps to the same join in Pandas, Polars and SQL (deviations are listed findings); a rewrite "
+            "that swaps a join node's sources swaps on_a/on_b; shared non-key columns take the left value first in all three "
+            "back ends and ON pairs on_a[i] with on_b[i]; Pandas' suffixed-twin clean-up is decided on key pairs.",
+            "Trusted: pandas.merge / polars.join / SQL null-key contracts (DESIGN.md 3.2). Six known findings. "
+            "Not decided: duplicate-key multiplicities and all value-level behaviour.",
+            "DESIGN.md 6/C16"),
     "C04": ("def-use classification of stores into existing NearSQL objects + post-dominance of the cache-key update; value-kind dataflow for the None guard of the CTE cache; emitter/re-wrap field matrix; syntactic-context classification of every option read (ast)",
             "CTE-elimination cache key is coherent with step content (every redefinition of an existing step is followed by an "
             "ops_key update; keyless steps are never cached; key includes columns); the extend-merge guard and the declared "
